@@ -46,7 +46,7 @@ PROFILES = {
     "ws": dict(p_noskip=0.5, p_user_ws=0.35, p_include=0.25, w_string=3, p_position=0.3, p_ws_lit=0.15),
     "position": dict(p_position=0.8, p_unicode=0.3, w_string=3, w_enum=2, p_memo=0.15, leftrec=0.15),
     "errors": dict(p_lookahead=0.25, p_check=0.25, w_extern=1, w_char=2, p_ccheck=0.3, p_eoi_root=0.8),
-    "include": dict(p_lonely_include=0.35, p_nest_include=0.6, p_name_family=0.3, p_include=0.6, p_noskip=0.4, p_position=0.3, p_memo=0.15, p_check=0.15, w_struct=8,
+    "include": dict(p_user_ws=0.25, p_lonely_include=0.35, p_nest_include=0.6, p_name_family=0.3, p_include=0.6, p_noskip=0.4, p_position=0.3, p_memo=0.15, p_check=0.15, w_struct=8,
                     w_unit=2, w_alias=0, w_enum=1),
     "userfn": dict(p_check=0.6, p_ccheck=0.6, w_extern=4, w_char=2, user_ctx=0.4, w_string=2, w_enum=2, w_alias=2, leftrec=0.3),
     "trace": dict(p_memo=0.3, leftrec=0.3, p_check=0.3, w_extern=2, p_ccheck=0.2),
@@ -340,7 +340,14 @@ class Gen:
 
     def user_whitespace(self):
         r = self.r
-        style = r.randint(0, 2)
+        style = r.randint(0, 3)
+        if style == 3:
+            # pieces of the whitespace definition pulled in with `>` from rules that are not @no_skip_ws themselves (an included
+            # body runs with the includer's settings, the directives of the included rule have no effect)
+            nl = Rule("WsNewline", Cho([Seq([Lit("\r"), Lit("\n")]), Seq([Lit("\n")])]), [] if self.coin(0.7) else ["no_skip_ws"])
+            com = Rule("WsComment", Cho([Seq([Lit("#"), Clo(Cho([Seq([Neg(Lit("\n")), Neg(Lit("\r")), Ref("char")])])), Inc("WsNewline")])]), [])
+            body = Cho([Seq([Clo(Cho([Seq([Lit(" ")]), Seq([Lit("\t")]), Seq([Inc("WsNewline")]), Seq([Inc("WsComment")])]))])])
+            return [Rule("Whitespace", body, ["no_skip_ws"]), nl, com]
         if style == 0:
             body = Cho([Seq([Clo(Cho([Seq([Ref("Comment")]), Seq([Lit("\t")]), Seq([Lit("\n")]), Seq([Lit("\x0c")]),
                                       Seq([Lit("\r")]), Seq([Lit(" ")])]))])])
@@ -771,6 +778,19 @@ class Gen:
             base = Seq([Neg(Ref("LRec")), Ref("LAtom", "r")]) if self.coin(0.5) else Seq([Ref("LAtom", "r"), Neg(Lit(ops[0] + ops[0]))])
             rules.append(Rule("LRec", Cho([rec, base]), ["leftrec"] + d_pos()))
             entry = "LRec"
+        if self.coin(0.3):
+            # the recursive reference comes right after a call to a rule that can match nothing (explicit-whitespace style,
+            # optional marks): still left recursion
+            nul_fields = self.coin(0.4)
+            rules.append(Rule("LNul", Cho([Seq([Clo(Cho([Seq([Ref("LMark", "marks")] if nul_fields else [Lit("~")])]))])]), ["no_skip_ws"] if not nul_fields else []))
+            if nul_fields:
+                rules.append(Rule("LMark", Cho([Seq([Lit("~")])]), ["string"]))
+            for ru in rules:
+                if ru.name in ("LNul", "LMark", "LAtom"):
+                    continue
+                for alt in ru.body.alts:
+                    if alt.parts and isinstance(alt.parts[0], Ref) and alt.parts[0].rule in ("LRec", "LTerm", "LStr") and alt.parts[0].field != "@":
+                        alt.parts.insert(0, Ref("LNul", "marks") if (nul_fields and "string" not in ru.directives and self.coin(0.5)) else Ref("LNul"))
         for ru in rules:
             if "leftrec" in ru.directives and self.coin(0.25):
                 ru.directives.insert(self.r.randint(0, len(ru.directives)), "memoize")
